@@ -47,12 +47,19 @@ def intercalate (sep : List Char) : List (List Char) → List Char
 
 abbrev WDay := Int × Option Int        -- weekday 0..6, n
 
+/-- the options every `parser.parse(...)` call of rrulestr is given: `ignoretz=`, and whether `tzinfos=` is the object the
+    caller passed (`true`) or `None` -/
+structure ParseOpts where
+  ignoretz : Bool := false
+  tzinfos : Bool := false
+  deriving DecidableEq, Repr, Inhabited
+
 structure RArgs where
   freq : Option Int := none
   interval : Option Int := none
   count : Option Int := none
   wkst : Option Int := none
-  untilV : Option (List Char) := none          -- upper-cased text handed to parser.parse
+  untilV : Option (List Char × ParseOpts) := none   -- upper-cased text handed to parser.parse, and the options it is parsed with
   bysetpos : Option (List Int) := none
   bymonth : Option (List Int) := none
   bymonthday : Option (List Int) := none
@@ -115,14 +122,14 @@ inductive Field where
 
 /-- one assignment `rrkwargs[key] = v` -/
 inductive Update where
-  | freq (v : Int) | interval (v : Int) | count (v : Int) | wkst (v : Int) | untilV (t : List Char)
+  | freq (v : Int) | interval (v : Int) | count (v : Int) | wkst (v : Int) | untilV (t : List Char) (po : ParseOpts)
   | bysetpos (l : List Int) | bymonth (l : List Int) | bymonthday (l : List Int) | byyearday (l : List Int)
   | byeaster (l : List Int) | byweekno (l : List Int) | byweekday (l : List WDay) | byhour (l : List Int)
   | byminute (l : List Int) | bysecond (l : List Int)
   deriving DecidableEq, Repr, Inhabited
 
 def Update.field : Update → Field
-  | .freq _ => .freq | .interval _ => .interval | .count _ => .count | .wkst _ => .wkst | .untilV _ => .untilV
+  | .freq _ => .freq | .interval _ => .interval | .count _ => .count | .wkst _ => .wkst | .untilV _ _ => .untilV
   | .bysetpos _ => .bysetpos | .bymonth _ => .bymonth | .bymonthday _ => .bymonthday | .byyearday _ => .byyearday
   | .byeaster _ => .byeaster | .byweekno _ => .byweekno | .byweekday _ => .byweekday | .byhour _ => .byhour
   | .byminute _ => .byminute | .bysecond _ => .bysecond
@@ -134,7 +141,7 @@ def Update.apply (u : Update) (a : RArgs) : RArgs :=
   | .interval v => { a with interval := some v }
   | .count v => { a with count := some v }
   | .wkst v => { a with wkst := some v }
-  | .untilV t => { a with untilV := some t }
+  | .untilV t po => { a with untilV := some (t, po) }
   | .bysetpos l => { a with bysetpos := some l }
   | .bymonth l => { a with bymonth := some l }
   | .bymonthday l => { a with bymonthday := some l }
@@ -148,7 +155,7 @@ def Update.apply (u : Update) (a : RArgs) : RArgs :=
 
 /-- dispatch of `getattr(self, "_handle_" + name)`: which assignment the handler makes;
     `.error .AttributeError` = unknown name -/
-def handleU (name value : List Char) : Py.R Update :=
+def handleU (po : ParseOpts) (name value : List Char) : Py.R Update :=
   if name == lit "INTERVAL" then do let v ← int! value; .ok (.interval v)
   else if name == lit "COUNT" then do let v ← int! value; .ok (.count v)
   else if name == lit "BYSETPOS" then do let l ← intList value; .ok (.bysetpos l)
@@ -164,7 +171,7 @@ def handleU (name value : List Char) : Py.R Update :=
     match lookup freqMap value with
     | some f => .ok (.freq f)
     | none => .error .KeyError
-  else if name == lit "UNTIL" then .ok (.untilV value)
+  else if name == lit "UNTIL" then .ok (.untilV value po)     -- parser.parse(value, ignoretz=kwargs.get("ignoretz"), tzinfos=kwargs.get("tzinfos"))
   else if name == lit "WKST" then
     match lookup weekdayMap value with
     | some k => .ok (.wkst k)
@@ -174,17 +181,17 @@ def handleU (name value : List Char) : Py.R Update :=
     .ok (.byweekday l)
   else .error .AttributeError
 
-def handle (a : RArgs) (name value : List Char) : Py.R RArgs :=
-  match handleU name value with
+def handle (po : ParseOpts) (a : RArgs) (name value : List Char) : Py.R RArgs :=
+  match handleU po name value with
   | .ok u => .ok (u.apply a)
   | .error e => .error e
 
 /-- the loop body of `_parse_rfc_rrule`: `name, value = pair.split('=')`, upper, dispatch with the
     exception mapping (AttributeError → ValueError, KeyError/ValueError → ValueError) -/
-def stepPair (a : RArgs) (pair : List Char) : Py.R RArgs :=
+def stepPair (po : ParseOpts) (a : RArgs) (pair : List Char) : Py.R RArgs :=
   match splitOnChar '=' pair with
   | [name, value] =>
-    match handle a (upper name) (upper value) with
+    match handle po a (upper name) (upper value) with
     | .ok a' => .ok a'
     | .error _ => .error .ValueError
   | _ => .error .ValueError               -- unpacking error
@@ -198,9 +205,9 @@ def lineValue (line : List Char) : Py.R (List Char) :=
   else .ok line
 
 /-- `_parse_rfc_rrule(line)` up to the `rrule(**rrkwargs)` call -/
-def parseRRuleLine (line : List Char) : Py.R RArgs := do
+def parseRRuleLine (po : ParseOpts) (line : List Char) : Py.R RArgs := do
   let value ← lineValue line
-  (splitOnChar ';' value).foldlM stepPair {}
+  (splitOnChar ';' value).foldlM (stepPair po) {}
 
 /-- `if "freq" not in rrkwargs: raise ValueError` (since the C13 fix; it used to reach `rrule()` and leak TypeError) -/
 def needFreq (a : RArgs) : Py.R RArgs := if a.freq.isNone then .error .ValueError else .ok a
@@ -230,12 +237,23 @@ structure Opts where
   unfold : Bool := false
   forceset : Bool := false
   compatible : Bool := false
+  ignoretz : Bool := false
+  tzinfos : Bool := false          -- a `tzinfos=` object was passed
+  cache : Bool := false
   deriving Repr, Inhabited
 
+/-- the `ignoretz=` / `tzinfos=` parameters of `_parse_rfc`, as they are handed on -/
+def Opts.po (o : Opts) : ParseOpts := { ignoretz := o.ignoretz, tzinfos := o.tzinfos }
+
+/-- a date value of a DTSTART / EXDATE line: its text, the line's parameters, the options `parser.parse` gets -/
+abbrev DateV := List Char × List (List Char) × ParseOpts
+
 inductive Parsed where
-  | rule (a : RArgs) (dtstart : Option (List Char × List (List Char)))     -- dtstart value text + its parms
-  | set (rrules exrules : List RArgs) (rdates : List (List Char)) (exdates : List (List Char × List (List Char)))
-        (dtstart : Option (List Char × List (List Char))) (rdateDtstart : Bool)
+  /-- `rrule(dtstart=…, cache=…, **rrkwargs)` -/
+  | rule (a : RArgs) (dtstart : Option DateV) (cache : Bool)
+  /-- `rruleset(cache=…)` and its members (member rules are built without `cache=`) -/
+  | set (rrules exrules : List RArgs) (rdates : List (List Char × ParseOpts)) (exdates : List DateV)
+        (dtstart : Option DateV) (rdateDtstart : Bool) (cache : Bool)
   deriving DecidableEq, Repr, Inhabited
 
 /-- `s.split()` — runs of non-whitespace -/
@@ -251,8 +269,8 @@ structure Acc where
   rrulevals : List (List Char) := []
   rdatevals : List (List Char) := []
   exrulevals : List (List Char) := []
-  exdatevals : List (List Char × List (List Char)) := []
-  dtstart : Option (List Char × List (List Char)) := none
+  exdatevals : List DateV := []
+  dtstart : Option DateV := none
   deriving Repr, Inhabited
 
 def dateParmsOk (parms : List (List Char)) : Py.R Unit :=
@@ -262,7 +280,8 @@ def dateParmsOk (parms : List (List Char)) : Py.R Unit :=
   else if rest.length > 1 then .error .ValueError
   else .ok ()
 
-def stepLine (acc : Acc) (line : List Char) : Py.R Acc :=
+/-- the dispatch loop body; `po` = the `ignoretz, tzinfos` handed to `_parse_date_value` -/
+def stepLine (po : ParseOpts) (acc : Acc) (line : List Char) : Py.R Acc :=
   if line.isEmpty then .ok acc else
   let (name0, value) : List Char × List Char :=
     if !line.contains ':' then (lit "RRULE", line)
@@ -280,11 +299,11 @@ def stepLine (acc : Acc) (line : List Char) : Py.R Acc :=
     if !parms.isEmpty then .error .ValueError else .ok { acc with exrulevals := acc.exrulevals ++ [value] }
   else if name == lit "EXDATE" then do
     let _ ← dateParmsOk parms
-    .ok { acc with exdatevals := acc.exdatevals ++ (splitOnChar ',' value).map (fun d => (d, parms)) }
+    .ok { acc with exdatevals := acc.exdatevals ++ (splitOnChar ',' value).map (fun d => (d, parms, po)) }
   else if name == lit "DTSTART" then do
     let _ ← dateParmsOk parms
     if (splitOnChar ',' value).length != 1 then .error .ValueError
-    else .ok { acc with dtstart := some (value, parms) }
+    else .ok { acc with dtstart := some (value, parms, po) }
   else .error .ValueError
 
 def unfoldLines (lines : List (List Char)) : List (List Char) := ICal.unfold lines
@@ -293,42 +312,46 @@ def unfoldLines (lines : List (List Char)) : List (List Char) := ICal.unfold lin
 def linesOf (s : List Char) (unfold : Bool) : List (List Char) :=
   if unfold then unfoldLines (splitLines s) else splitWs s
 
-/-- `_parse_rfc_rrule(value, dtstart=…)` as far as the model goes: the keyword arguments, FREQ required -/
-def ruleOf (v : List Char) : Py.R RArgs := do let a ← parseRRuleLine v; needFreq a
+/-- `_parse_rfc_rrule(value, dtstart=…, ignoretz=…, tzinfos=…)` as far as the model goes: the keyword arguments, FREQ required -/
+def ruleOf (po : ParseOpts) (v : List Char) : Py.R RArgs := do let a ← parseRRuleLine po v; needFreq a
 
-def buildRule (v : List Char) (dtstart : Option (List Char × List (List Char))) : Py.R Parsed := do
-  let a ← ruleOf v
-  .ok (.rule a dtstart)
+/-- `_parse_rfc_rrule(v, dtstart=dtstart, cache=cache, ignoretz=…, tzinfos=…)` -/
+def buildRule (po : ParseOpts) (v : List Char) (dtstart : Option DateV) (cache : Bool) : Py.R Parsed := do
+  let a ← ruleOf po v
+  .ok (.rule a dtstart cache)
 
-/-- the `rruleset` branch: every RRULE / EXRULE value parsed in order, RDATE values split at `,` -/
-def buildSet (acc : Acc) (compatible dtstartKw : Bool) : Py.R Parsed := do
-  let rr ← acc.rrulevals.mapM ruleOf
-  let ex ← acc.exrulevals.mapM ruleOf
-  let rdates := (acc.rdatevals.map (splitOnChar ',')).flatten
-  .ok (.set rr ex rdates acc.exdatevals acc.dtstart (compatible && (acc.dtstart.isSome || dtstartKw)))
+/-- the `rruleset(cache=cache)` branch: every RRULE / EXRULE value parsed in order (with the options, without `cache`),
+    RDATE values split at `,` and parsed with the options -/
+def buildSet (po : ParseOpts) (acc : Acc) (compatible dtstartKw cache : Bool) : Py.R Parsed := do
+  let rr ← acc.rrulevals.mapM (ruleOf po)
+  let ex ← acc.exrulevals.mapM (ruleOf po)
+  let rdates := ((acc.rdatevals.map (splitOnChar ',')).flatten).map (fun d => (d, po))
+  .ok (.set rr ex rdates acc.exdatevals acc.dtstart (compatible && (acc.dtstart.isSome || dtstartKw)) cache)
 
 /-- the condition of the `rruleset` branch -/
 def wantsSet (forceset : Bool) (acc : Acc) : Bool :=
   forceset || acc.rrulevals.length > 1 || !acc.rdatevals.isEmpty || !acc.exrulevals.isEmpty || !acc.exdatevals.isEmpty
 
-/-- `_parse_rfc` after upper-casing and line splitting (`s` is the upper-cased text) -/
-def parseLines (s : List Char) (lines : List (List Char)) (forceset compatible dtstartKw : Bool) : Py.R Parsed :=
+/-- `_parse_rfc` after upper-casing and line splitting (`s` is the upper-cased text); every call site hands on
+    `po` (= `ignoretz, tzinfos`) and `cache` itself, as in the code -/
+def parseLines (po : ParseOpts) (cache : Bool) (s : List Char) (lines : List (List Char))
+    (forceset compatible dtstartKw : Bool) : Py.R Parsed :=
   if !forceset && lines.length == 1 && (!s.contains ':' || startsWith s (lit "RRULE:")) then
-    buildRule (lines.headD []) none
+    buildRule po (lines.headD []) none cache                       -- the single-line fast path
   else do
-    let acc ← lines.foldlM stepLine {}
-    if wantsSet forceset acc then buildSet acc compatible dtstartKw
+    let acc ← lines.foldlM (stepLine po) {}
+    if wantsSet forceset acc then buildSet po acc compatible dtstartKw cache
     else
       match acc.rrulevals with
-      | v :: _ => buildRule v acc.dtstart
+      | v :: _ => buildRule po v acc.dtstart cache                 -- several lines, one rule
       | [] => .error .ValueError                -- `if not rrulevals: raise ValueError` (since the C13 fix)
 
-/-- `_rrulestr._parse_rfc(s, unfold, forceset, compatible)` up to the construction of the objects;
+/-- `_rrulestr._parse_rfc(s, unfold, forceset, compatible, ignoretz, tzinfos, cache)` up to the construction of the objects;
     `dtstartKw` = whether a `dtstart=` keyword was passed (it only matters for `compatible`) -/
 def parseRfc (s0 : List Char) (o : Opts) (dtstartKw : Bool := false) : Py.R Parsed :=
   let s := upper s0
   if (strip s).isEmpty then .error .ValueError
-  else parseLines s (linesOf s (o.unfold || o.compatible)) (o.forceset || o.compatible) o.compatible dtstartKw
+  else parseLines o.po o.cache s (linesOf s (o.unfold || o.compatible)) (o.forceset || o.compatible) o.compatible dtstartKw
 
 /-! ### `rrule.__str__` -/
 
